@@ -701,4 +701,166 @@ theorem reduced_core (T : Table) : ∀ (ls : List FLabel) (f : FSys) (fl : Bool)
         | _ => rfl
       rw [hia]; exact ih
 
+/-! ### the normalisations keep the order of the reads (the script) -/
+
+theorem runes_congr (l : FLabel) (a b : List FLabel) (h : runes a = runes b) : runes (l :: a) = runes (l :: b) := by
+  cases l with
+  | readRet i => cases i <;> simp [runes, h]
+  | _ => simpa [runes] using h
+
+theorem runes_cs (k : Nat) (ls : List FLabel) : runes (cs k ++ ls) = runes ls := by
+  induction k with
+  | zero => simp [cs]
+  | succ k ih => rw [cs_succ, List.cons_append]; simpa [runes] using ih
+
+theorem extract_runes (T : Table) : ∀ (ls : List FLabel) (f : FSys) (ls' : List FLabel),
+    extract T f ls = some ls' → runes ls = runes ls'
+  | [], _, _, h => by simp [extract] at h
+  | l :: ls, f, ls', h => by
+    simp only [extract] at h
+    by_cases hl : l = .expire
+    · rw [if_pos hl] at h
+      simp only [Option.some.injEq] at h
+      rw [hl, ← h]; rfl
+    · rw [if_neg hl] at h
+      by_cases hst : l = .main ∧ stopsTimer f = true
+      · rw [if_pos hst] at h; cases h
+      · rw [if_neg hst] at h
+        cases hs : FSys.step T f l with
+        | none => rw [hs] at h; cases h
+        | some r =>
+          obtain ⟨f1, o⟩ := r
+          rw [hs] at h
+          simp only [Option.map_eq_some_iff] at h
+          obtain ⟨ls1, h1, rfl⟩ := h
+          exact runes_congr l _ _ (extract_runes T ls f1 ls1 h1)
+
+theorem expNorm_runes (T : Table) : ∀ (n : Nat) (f : FSys) (ls : List FLabel), runes (expNorm T n f ls) = runes ls
+  | 0, _, _ => rfl
+  | _ + 1, _, [] => rfl
+  | n + 1, f, l :: ls => by
+    simp only [expNorm]
+    cases hs : FSys.step T f l with
+    | none => rfl
+    | some r =>
+      obtain ⟨f', o⟩ := r
+      simp only
+      split
+      · split
+        · rename_i ls' f'' o'' he hx
+          refine runes_congr l _ _ ?_
+          rw [extract_runes T ls f' ls' he]
+          simpa [runes] using expNorm_runes T n f'' ls'
+        · exact runes_congr l _ _ (expNorm_runes T n f' ls)
+      · exact runes_congr l _ _ (expNorm_runes T n f' ls)
+
+theorem closeNorm_runes (T : Table) : ∀ (ls : List FLabel) (k : Nat) (f : FSys), runes (closeNorm T k f ls) = runes ls
+  | [], k, f => by simpa [closeNorm] using runes_cs k []
+  | l :: ls, k, f => by
+    simp only [closeNorm]
+    by_cases hl : l = .closeSig
+    · subst hl
+      rw [if_pos rfl, closeNorm_runes T ls (k + 1) f]; rfl
+    · rw [if_neg hl]
+      by_cases hx : k ≠ 0 ∧ l = .main ∧ f.mpc = .atSelect
+      · rw [if_pos hx]
+        obtain ⟨_, rfl, _⟩ := hx
+        simpa [runes] using closeNorm_runes T ls (k - 1) _
+      · rw [if_neg hx]
+        cases hs : FSys.step T f l with
+        | none => exact runes_congr l _ _ (runes_cs k ls)
+        | some r => exact runes_congr l _ _ (closeNorm_runes T ls k r.1)
+
+theorem cbNorm_runes (T : Table) : ∀ (ls : List FLabel) (p : Option Nat) (f : FSys), runes (cbNorm T p f ls) = runes ls
+  | [], none, _ => rfl
+  | [], some k, _ => rfl
+  | l :: ls, none, f => by
+    simp only [cbNorm]
+    cases ho : openK f l with
+    | some k =>
+      obtain ⟨rfl, _⟩ := openK_spec f l k ho
+      simp only
+      rw [cbNorm_runes T ls (some k) f]; rfl
+    | none =>
+      simp only
+      cases hs : FSys.step T f l with
+      | none => rfl
+      | some r => exact runes_congr l _ _ (cbNorm_runes T ls none r.1)
+  | l :: ls, some k, f => by
+    simp only [cbNorm]
+    by_cases hl : l = .cb k
+    · subst hl
+      rw [if_pos rfl]
+      cases h2 : FSys.run T f [.cb k, .cb k] with
+      | none => rfl
+      | some r => simpa [runes] using cbNorm_runes T ls none r.1
+    · rw [if_neg hl]
+      cases hs : FSys.step T f l with
+      | none => rfl
+      | some r => exact runes_congr l _ _ (cbNorm_runes T ls (some k) r.1)
+
+theorem readNorm_runes (T : Table) : ∀ (ls : List FLabel) (p : Option Inp) (f : FSys),
+    (FSys.run T f (ParserRunSchedGroup.pend p ++ ls)).isSome = true →
+    runes (readNorm T p f ls) = runes (ParserRunSchedGroup.pend p ++ ls)
+  | [], p, f, _ => by simp [readNorm]
+  | l :: ls, none, f, hr => by
+    simp only [ParserRunSchedGroup.pend, List.nil_append] at hr ⊢
+    simp only [readNorm]
+    split
+    · rename_i i
+      exact readNorm_runes T ls (some i) f hr
+    · obtain ⟨f', o, hs, hr'⟩ := isSome_cons T f l ls hr
+      simp only [hs]
+      exact runes_congr l _ _ (by simpa [ParserRunSchedGroup.pend] using readNorm_runes T ls none f' hr')
+  | l :: ls, some i, f, hr => by
+    simp only [ParserRunSchedGroup.pend, List.singleton_append] at hr ⊢
+    obtain ⟨f1, o1, hs1, hr1⟩ := isSome_cons T f _ _ hr
+    obtain ⟨f12, o12, hs12, hr12⟩ := isSome_cons T f1 l _ hr1
+    simp only [readNorm]
+    by_cases hl : l = .main
+    · subst hl
+      rw [if_pos rfl]
+      have hrun : FSys.run T f [.readRet i, .main] = some (f12, o1 ++ (o12 ++ [])) := by
+        simp only [FSys.run, hs1, hs12]
+      simp only [hrun]
+      exact runes_congr _ _ _ (runes_congr _ _ _
+        (by simpa [ParserRunSchedGroup.pend] using readNorm_runes T ls none f12 hr12))
+    · rw [if_neg hl]
+      have hsw := read_swap T f i l ls hl
+      rw [hsw] at hr
+      obtain ⟨f', o', hs', hr'⟩ := isSome_cons T f l _ hr
+      simp only [hs']
+      have hnr : isRead l = false := by
+        cases l with
+        | readRet j =>
+          exfalso
+          obtain ⟨f2, o2, hs2, _⟩ := isSome_cons T f' _ _ hr'
+          simp only [FSys.step] at hs' hs2
+          split at hs'
+          · simp only [Option.some.injEq, Prod.mk.injEq] at hs'
+            rw [← hs'.1] at hs2
+            simp at hs2
+          · cases hs'
+        | _ => rfl
+      have ih := readNorm_runes T ls (some i) f' (by simpa [ParserRunSchedGroup.pend] using hr')
+      simp only [ParserRunSchedGroup.pend, List.singleton_append] at ih
+      rw [runes_nonread l _ hnr, ih]
+      exact (runes_congr _ _ _ (runes_nonread l ls hnr)).symm
+
+/-- The normal form of a schedule: expiries pulled behind their arming statements, `Close()` calls carried
+    to the next `select`, read returns to their `Stop()`, callback checks to their `Unlock`. -/
+def normalForm (T : Table) (f0 : FSys) (ls : List FLabel) : List FLabel :=
+  cbNorm T none f0 (readNorm T none f0 (closeNorm T 0 f0 (expNorm T ls.length f0 ls)))
+
+/-- The normal form keeps the script (the order of the reads). -/
+theorem normalForm_runes (T : Table) (f0 : FSys) (ls : List FLabel) (r : FSys × List Seq)
+    (h : FSys.run T f0 ls = some r) : runes (normalForm T f0 ls) = runes ls := by
+  have e1 : FSys.run T f0 (expNorm T ls.length f0 ls) = some r := by rw [expNorm_run]; exact h
+  have e2 : FSys.run T f0 (closeNorm T 0 f0 (expNorm T ls.length f0 ls)) = some r := by
+    rw [closeNorm_run]; simpa [cs] using e1
+  unfold normalForm
+  rw [cbNorm_runes, readNorm_runes T _ none f0 (by simp only [ParserRunSchedGroup.pend, List.nil_append]; rw [e2]; rfl)]
+  simp only [ParserRunSchedGroup.pend, List.nil_append]
+  rw [closeNorm_runes, expNorm_runes]
+
 end VaxisModel.Lemmas.ParserRunSchedEnum
